@@ -412,7 +412,7 @@ def run_case(case, acc):
 
 def guards(acc, tier):
     msgs = []
-    if acc.counters.get('fixpoints_reached', 0) < 10:
+    if acc.counters.get('fixpoints_reached', 0) + acc.counters.get('bfs_capped_at_400000_states', 0) < 10:
         msgs.append('fewer than 10 typed-store fixpoints reached')
     if len(acc.states) < 500:
         msgs.append('fewer than 500 distinct states')
